@@ -1,0 +1,159 @@
+//go:build verif
+
+package dkg
+
+import (
+	"fmt"
+	"math/big"
+
+	"github.com/ipfs/go-log/v2"
+
+	"github.com/keep-network/keep-core/pkg/protocol/group"
+	"github.com/keep-network/keep-core/pkg/protocol/state"
+)
+
+// Verification hooks for properties C12 and C13 (thin wrappers, no behaviour
+// of their own): build one of the message-receiving states around a member
+// created with newMember / newSigningMember, build protocol messages.
+
+// VerifC12Sites is the number of shouldAcceptMessage call sites in states.go.
+const VerifC12Sites = 7
+
+// VerifC12Probe holds a receiving state, the message history it writes to and
+// the group of its member.
+type VerifC12Probe struct {
+	State state.AsyncState
+	Base  *state.BaseAsyncState
+	Group *group.Group
+}
+
+// VerifC12NewProbe builds the key-generation state that contains the given
+// call site: 0 ephemeralKeyPairGenerationState, 1 symmetricKeyGenerationState,
+// 2 tssRoundOneState, 3 tssRoundTwoState, 4 tssRoundThreeState,
+// 5 finalizationState. The TSS party is not started.
+func VerifC12NewProbe(
+	site int,
+	logger log.StandardLogger,
+	memberIndex group.MemberIndex,
+	groupSize int,
+	dishonestThreshold int,
+	membershipValidator *group.MembershipValidator,
+	sessionID string,
+) (*VerifC12Probe, error) {
+	m := newMember(
+		logger,
+		big.NewInt(1),
+		memberIndex,
+		groupSize,
+		dishonestThreshold,
+		membershipValidator,
+		sessionID,
+		nil,
+		1,
+	)
+	base := state.NewBaseAsyncState()
+	ephemeral := m.initializeEphemeralKeysGeneration()
+	symmetric := ephemeral.initializeSymmetricKeyGeneration()
+	roundOne := &tssRoundOneMember{symmetricKeyGeneratingMember: symmetric}
+	roundTwo := roundOne.initializeTssRoundTwo()
+	roundThree := roundTwo.initializeTssRoundThree()
+
+	var st state.AsyncState
+	switch site {
+	case 0:
+		st = &ephemeralKeyPairGenerationState{BaseAsyncState: base, member: ephemeral}
+	case 1:
+		st = &symmetricKeyGenerationState{BaseAsyncState: base, member: symmetric}
+	case 2:
+		st = &tssRoundOneState{BaseAsyncState: base, member: roundOne}
+	case 3:
+		st = &tssRoundTwoState{BaseAsyncState: base, member: roundTwo}
+	case 4:
+		st = &tssRoundThreeState{BaseAsyncState: base, member: roundThree}
+	case 5:
+		st = &finalizationState{BaseAsyncState: base, member: roundThree.initializeFinalization()}
+	default:
+		return nil, fmt.Errorf("unknown site %d", site)
+	}
+	return &VerifC12Probe{State: st, Base: base, Group: m.group}, nil
+}
+
+// VerifC12NewResultSigningProbe builds the resultSigningState the way Publish
+// does.
+func VerifC12NewResultSigningProbe(
+	logger log.StandardLogger,
+	memberIndex group.MemberIndex,
+	dkgGroup *group.Group,
+	membershipValidator *group.MembershipValidator,
+	sessionID string,
+	resultSigner ResultSigner,
+	resultSubmitter ResultSubmitter,
+	result *Result,
+) *VerifC12Probe {
+	base := state.NewBaseAsyncState()
+	st := &resultSigningState{
+		BaseAsyncState:  base,
+		resultSigner:    resultSigner,
+		resultSubmitter: resultSubmitter,
+		member: newSigningMember(
+			logger,
+			memberIndex,
+			dkgGroup,
+			membershipValidator,
+			sessionID,
+		),
+		result: result,
+	}
+	return &VerifC12Probe{State: st, Base: base, Group: dkgGroup}
+}
+
+// VerifC12MessageKinds is the number of kinds VerifC12NewMessage knows.
+const VerifC12MessageKinds = 5
+
+// VerifC12NewMessage builds a key-generation protocol message: 0 ephemeral
+// public key, 1..3 TSS rounds, 4 finalization.
+func VerifC12NewMessage(
+	kind int,
+	senderID group.MemberIndex,
+	sessionID string,
+) interface{} {
+	switch kind {
+	case 0:
+		return &ephemeralPublicKeyMessage{senderID: senderID, sessionID: sessionID}
+	case 1:
+		return &tssRoundOneMessage{senderID: senderID, sessionID: sessionID}
+	case 2:
+		return &tssRoundTwoMessage{senderID: senderID, sessionID: sessionID}
+	case 3:
+		return &tssRoundThreeMessage{senderID: senderID, sessionID: sessionID}
+	case 4:
+		return &tssFinalizationMessage{senderID: senderID, sessionID: sessionID}
+	}
+	return nil
+}
+
+// VerifC12NewResultSignatureMessage builds a resultSignatureMessage.
+func VerifC12NewResultSignatureMessage(
+	senderID group.MemberIndex,
+	resultHash ResultSignatureHash,
+	signature []byte,
+	publicKey []byte,
+	sessionID string,
+) interface{} {
+	return &resultSignatureMessage{
+		senderID:   senderID,
+		resultHash: resultHash,
+		signature:  signature,
+		publicKey:  publicKey,
+		sessionID:  sessionID,
+	}
+}
+
+// VerifC12MessageType returns the Type() of a message built by the functions
+// above.
+func VerifC12MessageType(payload interface{}) string {
+	if m, ok := payload.(message); ok {
+		return m.Type()
+	}
+	return ""
+}
